@@ -91,6 +91,39 @@ theorem c04_sites_layout :
     (struct_openIDConnectIDToken.filter (·.omitempty)).map (·.json) = [Field.authTime.json, Field.nonce.json] := by
   decide
 
+/-! ### the model's value test *is* the regenerated comparison table, interpreted -/
+
+/-- meaning of one comparison of the `jwt.go` value tests; anything not understood counts as "rejects" -/
+def evalAuthCmp (d : Deployment) (now : Clock) (want : Str) (w : Wire) : Cmp → Bool
+  | ⟨.issuer, .ne, .issuer⟩ => gStr w .iss != d.issuer
+  | ⟨.tokenType, .ne, .param _⟩ => gStr w .tokenType != want
+  | ⟨.tokenType, .ne, .lit s⟩ => gStr w .tokenType != s
+  | ⟨.audienceLen, .lt, .int n⟩ => decide (((gStrs w .aud).length : Int) < n)
+  | ⟨.audience0, .ne, .issuer⟩ => (gStrs w .aud).head? != some d.issuer
+  | ⟨.notBefore, .gt, .nowUnix⟩ => decide (gInt w .nbf > now.sec)
+  | _ => true
+
+/-- **Table = model.** `authValuesBad` (used by the session, CLI, upgrade and storage consumers) is
+exactly the disjunction of the comparisons extracted from `getAuthInfoFromJWT`,
+`updateAuthJWTWithNewAuthLevel` and `getStorageDataFromStorageStringDataJWT`. -/
+theorem c04_table_model (d : Deployment) (now : Clock) (want : Str) (w : Wire) :
+    authValuesBad d now want w = cmps_getAuthInfoFromJWT.any (evalAuthCmp d now want w) ∧
+    authValuesBad d now sessionType w = cmps_updateAuthJWTWithNewAuthLevel.any (evalAuthCmp d now sessionType w) ∧
+    authValuesBad d now storageType w =
+      cmps_getStorageDataFromStorageStringDataJWT.any (evalAuthCmp d now storageType w) := by
+  have h1 := c04_sites.2.2.2.2.2.1
+  have h2 := c04_sites.2.2.2.2.2.2.1
+  have h3 := c04_sites.2.2.2.2.2.2.2.1
+  rw [h1, h2, h3]
+  have hl : ∀ l : List Str, decide ((l.length : Int) < 1) = decide (l = []) := by
+    intro l
+    cases l with
+    | nil => simp
+    | cons a as =>
+      simp
+      omega
+  simp [expectAuthValues, evalAuthCmp, authValuesBad, Bool.or_assoc, hl]
+
 /-! ### soundness: whatever a consumer honours satisfies the property's predicate -/
 
 theorem want_session : want_getAuthInfoFromAuthJWT = sessionType := by decide
@@ -514,5 +547,194 @@ theorem c04_single_claim (c : Consumer) (x : Ctx) (a : Artefact) (f : Field) (v 
     have := pinned_of_accepts c x _ h'
     simp only at this
     rw [this, pinned_of_accepts c x a h]
+
+/-! ### side effects -/
+
+/-- **No effect.** In every token-consuming handler (as modelled: `checkAuth`-guarded handlers that
+hand out tokens, `updateAuthCookieAuthlevel`, the two CLI-token handlers, `GetSigned`, the token and
+userinfo endpoints) a rejected artefact leaves nothing behind: no `Set-Cookie`, no token handed out,
+no protected value disclosed. (Nothing in these paths writes server-side state at all: sessions and
+tokens are stateless.) -/
+theorem c04_no_effect (d : Deployment) (now : Clock) (e : Rej) :
+    (∀ req cookie mint, (hWithSession d now req cookie mint).1 = .error e →
+        (hWithSession d now req cookie mint).2 = Effects.nothing) ∧
+    (∀ lvl cookie, (hUpgrade d now lvl cookie).1 = .error e → (hUpgrade d now lvl cookie).2 = Effects.nothing) ∧
+    (∀ tok, (hCliVerify d now tok).2 = Effects.nothing) ∧
+    (∀ req cookie tok, (hCliSend d now req cookie tok).1 = .error e →
+        (hCliSend d now req cookie tok).2 = Effects.nothing) ∧
+    (∀ r u ty, (hGetSigned d now r u ty).1 = .error e → (hGetSigned d now r u ty).2 = Effects.nothing) ∧
+    (∀ cl rd ok code, (hToken d now cl rd ok code).1 = .error e →
+        (hToken d now cl rd ok code).2 = Effects.nothing) ∧
+    (∀ tok, (hUserinfo d now tok).1 = .error e → (hUserinfo d now tok).2 = Effects.nothing) := by
+  refine ⟨?_, ?_, ?_, ?_, ?_, ?_, ?_⟩
+  · intro req cookie mint h
+    unfold hWithSession at h ⊢
+    split <;> try rfl
+    split <;> try rfl
+    rename_i hh; simp [hh] at h
+  · intro lvl cookie h
+    unfold hUpgrade at h ⊢
+    split <;> try rfl
+    split <;> try rfl
+    rename_i hh; simp [hh] at h
+  · intro tok
+    unfold hCliVerify
+    split <;> rfl
+  · intro req cookie tok h
+    unfold hCliSend at h ⊢
+    split <;> try rfl
+    split <;> try rfl
+    split <;> try rfl
+    rename_i h1 _ _ h2 _ _ h3; simp [h2, h3] at h
+  · intro r u ty h
+    unfold hGetSigned at h ⊢
+    split <;> try rfl
+    rename_i hh; simp [hh] at h
+  · intro cl rd ok code h
+    unfold hToken at h ⊢
+    split <;> try rfl
+    rename_i hh; simp [hh] at h
+  · intro tok h
+    unfold hUserinfo at h ⊢
+    split <;> try rfl
+    rename_i hh; simp [hh] at h
+
+/-- and the handlers decide exactly as the consumers do -/
+theorem handlers_decide_as_consumers (d : Deployment) (now : Clock) :
+    (∀ lvl a, ((hUpgrade d now lvl (some a)).1 = .ok ()) ↔ isOk (acceptUpgrade d now lvl a) = true) ∧
+    (∀ r u ty, ((hGetSigned d now r u ty).1 = .ok ()) ↔ isOk (acceptStorage d now r u ty) = true) ∧
+    (∀ cl rd ok a, ((hToken d now cl rd ok a).1 = .ok ()) ↔ isOk (acceptCode d now cl rd ok a) = true) ∧
+    (∀ a, ((hUserinfo d now a).1 = .ok ()) ↔ isOk (acceptAccess d now a) = true) := by
+  refine ⟨?_, ?_, ?_, ?_⟩
+  · intro lvl a; unfold hUpgrade; simp only; cases acceptUpgrade d now lvl a <;> simp [isOk]
+  · intro r u ty; unfold hGetSigned; cases acceptStorage d now r u ty <;> simp [isOk]
+  · intro cl rd ok a; unfold hToken; cases acceptCode d now cl rd ok a <;> simp [isOk]
+  · intro a; unfold hUserinfo; cases acceptAccess d now a <;> simp [isOk]
+
+/-! ### the two sanctioned re-issues keep what the input token said -/
+
+theorem gInt_emitAuth_exp (c : AuthClaims) (h : inI64 c.exp = true) : gInt (emitAuth c) .exp = c.exp := by
+  unfold gInt emitAuth optInt
+  by_cases h0 : c.exp = 0
+  · simp [h0, decInt]
+  · simp [h0, decInt, h]
+
+theorem gStr_emitAuth_sub (c : AuthClaims) : gStr (emitAuth c) .sub = c.sub := by
+  unfold gStr emitAuth optStr
+  by_cases h0 : c.sub = []
+  · simp [h0, decStr]
+  · simp [h0, decStr]
+
+/-- **Upgrade keeps window and user.** The cookie `updateAuthJWTWithNewAuthLevel` re-signs (with
+whichever trusted key, at whatever later time it is presented, for whatever mask) is honoured by
+`checkAuth` only while the *original* cookie's signed `exp` has not passed, and for the original
+cookie's user: upgrading never extends a session nor changes whose it is. -/
+theorem c04_upgrade_keeps_window_and_user (d : Deployment) (now now' : Clock) (lvl : Int) (a : Artefact)
+    (c : AuthClaims) (h : acceptUpgrade d now lvl a = .ok c)
+    (alg sigAlg : Alg) (signedBy : Option Nat) (req : Nat) (info : AuthInfo)
+    (h' : acceptSession d now' req { claims := emitAuth c, alg := alg, signedBy := signedBy, sigAlg := sigAlg } = .ok info) :
+    expiredAt (gInt a.claims .exp) now' = false ∧ info.username = gStr a.claims .sub ∧ info.authType = lvl := by
+  obtain ⟨_, _, _, rfl⟩ := acceptUpgrade_ok h
+  obtain ⟨hg, he, _⟩ := acceptSession_ok h'
+  obtain ⟨_, ht, _, rfl⟩ := getAuthInfo_ok hg
+  simp only at he ht ⊢
+  rw [gInt_emitAuth_exp _ (by simp [decodeAuth, gInt_range])] at he
+  rw [gStr_emitAuth_sub]
+  refine ⟨by simpa [decodeAuth] using he, by simp [decodeAuth], ?_⟩
+  have hl : inI64 lvl = true := by
+    simp only [typedAuth, okInt, emitAuth, decInt, Bool.and_eq_true] at ht
+    have := ht.2
+    split at this
+    · assumption
+    · cases this
+  simp [emitAuth, gInt, decInt, hl]
+
+theorem remaining_le {e : Int} {now : Clock} (hr : inI64 e = true) (hn : 0 ≤ now.sec)
+    (hns : now.nsec < 1000000000) (h : expiredAt e now = false) :
+    0 ≤ remainingSecs e now ∧ now.sec + remainingSecs e now ≤ e := by
+  have hb := inI64_bounds hr
+  simp only [expiredAt, Bool.or_eq_false_iff, Bool.and_eq_false_iff, decide_eq_false_iff_not, Int.not_lt] at h
+  obtain ⟨h1, h2⟩ := h
+  unfold remainingSecs
+  unfold unixInternal wrap64 at h1 h2 ⊢
+  omega
+
+/-- **CLI hand-off.** The one sanctioned change of kind: `SendAuthDocumentHandler` turns an honoured
+CLI token into a session cookie for the CLI. That cookie names the token's user (who is the
+logged-in user), carries only the `WebauthForCLI` level, and never outlives the token. -/
+theorem c04_cli_session_bounded (d : Deployment) (now : Clock) (u : Str) (tok : Artefact) (info : AuthInfo)
+    (hn : 0 ≤ now.sec) (hns : now.nsec < 1000000000) (h : acceptCliSend d now u tok = .ok info) :
+    info.username = u ∧ info.username = gStr tok.claims .sub ∧
+    gStr (emitSession d info.username KM.Gen.authTypeWebauthForCLI now.sec (remainingSecs info.expiresAt now)) .sub
+      = gStr tok.claims .sub ∧
+    gInt (emitSession d info.username KM.Gen.authTypeWebauthForCLI now.sec (remainingSecs info.expiresAt now)) .exp
+      ≤ gInt tok.claims .exp := by
+  obtain ⟨hg, hu, he⟩ := acceptCliSend_ok h
+  obtain ⟨_, _, _, rfl⟩ := getAuthInfo_ok hg
+  simp only at hu he ⊢
+  have hr := remaining_le (gInt_range tok.claims .exp) hn hns he
+  have hb := inI64_bounds (gInt_range tok.claims .exp)
+  refine ⟨hu, by simp, ?_, ?_⟩
+  · unfold emitSession; rw [gStr_emitAuth_sub]
+  · unfold emitSession
+    rw [gInt_emitAuth_exp _ (by simp only [inI64, Bool.and_eq_true, decide_eq_true_eq]; omega)]
+    exact hr.2
+
+/-! ### the tree as found -/
+
+def cxDep : Deployment := { issuer := "https://km".toList, trusted := [⟨1, .rsa⟩] }
+def cxNow : Clock := { sec := 1000, nsec := 0 }
+/-- a record really signed by keymaster for alice, type 1, whose signed `exp` (400) is long past -/
+def cxExpired : Artefact :=
+  { claims := emitStorage cxDep "alice".toList 1 "hash".toList 400 100, alg := .RS256, signedBy := some 1, sigAlg := .RS256 }
+/-- a record really signed by keymaster for alice, type 2 -/
+def cxType2 : Artefact :=
+  { claims := emitStorage cxDep "alice".toList 2 "other".toList 5000 100, alg := .RS256, signedBy := some 1, sigAlg := .RS256 }
+/-- context: the unsigned columns say (alice, 1, 9999); the lookup is for (alice, 1) -/
+def cxCtx : Ctx :=
+  { dep := cxDep, now := cxNow, lookupUser := "alice".toList, lookupType := 1,
+    colUser := "alice".toList, colType := 1, colExp := 9999 }
+
+/-- **As found.** `GetSigned` of the pinned tree honours a record whose signed `exp` is in the past
+once the unsigned `expiration_epoch` column is raised, and a type-2 record for a type-1 lookup once
+the unsigned `type` column is edited — both violate the property's predicate; the repaired consumer
+rejects both. -/
+theorem c04_unfixed_counterexample :
+    acceptsOld .storage cxCtx cxExpired = true ∧ honourable .storage cxCtx cxExpired = false ∧
+    acceptsOld .storage cxCtx cxType2 = true ∧ honourable .storage cxCtx cxType2 = false ∧
+    accepts .storage cxCtx cxExpired = false ∧ accepts .storage cxCtx cxType2 = false := by
+  decide
+
+/-! ### non-vacuity: the hypotheses of the theorems are satisfiable, honest artefacts are honoured -/
+
+example : Sane cxCtx := ⟨by decide, by decide⟩
+
+def cxKey : Artefact → Artefact := fun a => { a with alg := .RS256, signedBy := some 1, sigAlg := .RS256 }
+
+example : accepts .session { cxCtx with required := 2 }
+    (cxKey { claims := emitSession cxDep "alice".toList 10 900 57600, alg := .none, signedBy := none, sigAlg := .none }) = true := by
+  decide
+example : accepts .cliVerify cxCtx
+    (cxKey { claims := emitCli cxDep "alice".toList 900 3600, alg := .none, signedBy := none, sigAlg := .none }) = true := by
+  decide
+example : accepts .storage cxCtx
+    (cxKey { claims := emitStorage cxDep "alice".toList 1 "hash".toList 5000 100, alg := .none, signedBy := none, sigAlg := .none }) = true := by
+  decide
+example : accepts .code { cxCtx with clientID := "clientA".toList, redirect := "https://app/cb".toList }
+    (cxKey { claims := emitCode cxDep ⟨"clientA".toList, "alice".toList, "openid".toList, [], "https://app/cb".toList, [], [], [], []⟩ 900,
+             alg := .none, signedBy := none, sigAlg := .none }) = true := by
+  decide
+example : accepts .access cxCtx
+    (cxKey { claims := emitAccess cxDep
+              (emitCode cxDep ⟨"clientA".toList, "alice".toList, "openid".toList, [], "https://app/cb".toList, [], [], [], []⟩ 900) 950,
+             alg := .none, signedBy := none, sigAlg := .none }) = true := by
+  decide
+/-- an ID token presented as access token is rejected -/
+example : accepts .access cxCtx
+    (cxKey { claims := emitId cxDep
+              (emitCode cxDep ⟨"clientA".toList, "alice".toList, "openid".toList, [], "https://app/cb".toList, [], [], [], []⟩ 900)
+              "clientA".toList 950,
+             alg := .none, signedBy := none, sigAlg := .none }) = false := by
+  decide
 
 end KM.Token
